@@ -84,7 +84,8 @@ class C18:
         is_saver = lambda t: t[1][0] == "call" and t[1][1][0] == "attr" and t[1][1][2] == "get" and \
             t[1][1][1] == ("global", "soundevent.io.saver:SAVERS", "assign")
         is_saver2 = lambda t: (t[1][0] == "sub" and t[1][1] == ("global", "soundevent.io.saver:SAVERS", "assign"))
-        self.hop("soundevent.io.saver", "save", lambda t: is_saver(t) or is_saver2(t), save.params, "the format's saver")
+        is_saver3 = lambda t: t[1] == ("global", f"{AOEF_PKG}:save", "func")  # table lookup resolved by the engine
+        self.hop("soundevent.io.saver", "save", lambda t: is_saver(t) or is_saver2(t) or is_saver3(t), save.params, "the format's saver")
         sym, m, node = self.table_entry("soundevent.io.loader", "LOADERS", "aoef")
         if sym is None or sym.qual != f"{AOEF_PKG}:load":
             ctx.bad("R18.1", m.relpath, "LOADERS", "LOADERS['aoef']", f"the aoef loader is {sym.qual if sym else 'missing'}, not io.aoef.load", node.lineno)
@@ -94,7 +95,8 @@ class C18:
         is_loader = lambda t: (t[1][0] == "call" and t[1][1][0] == "attr" and t[1][1][2] == "get" and
                                t[1][1][1] == ("global", "soundevent.io.loader:LOADERS", "assign")) or \
                               (t[1][0] == "sub" and t[1][1] == ("global", "soundevent.io.loader:LOADERS", "assign"))
-        self.hop("soundevent.io.loader", "load", is_loader, load.params, "the format's loader")
+        is_loader3 = lambda t: t[1] == ("global", f"{AOEF_PKG}:load", "func")
+        self.hop("soundevent.io.loader", "load", lambda t: is_loader(t) or is_loader3(t), load.params, "the format's loader")
         to_aeof = ctx.summ.of_func(AOEF_PKG, "to_aeof")
         to_se = ctx.summ.of_func(AOEF_PKG, "to_soundevent")
         self.hop(AOEF_PKG, "save", lambda t: t[1] == ("global", f"{AOEF_PKG}:to_aeof", "func"), to_aeof.params, "to_aeof")
